@@ -41,7 +41,8 @@ func mix(a ...uint64) uint64 {
 	return h
 }
 
-const maxExprLen = 200
+// most expressions are short; the size families go up to a few KB (size thresholds)
+const maxExprLen = 6000
 
 type term struct {
 	text string // as written in an expression
@@ -353,6 +354,10 @@ func genCorpus(seed uint64, size int) *proto.Corpus {
 	// nesting families: an expression together with its sub-expressions and with
 	// expressions that contain it (caches keyed by sub-tree, shared expansions)
 	g.nestingFamilies()
+
+	// size families: inputs beyond the thresholds an optimisation might use (expression
+	// length 256 / 512 / 1024 / 4096 bytes, 32 / 64 / 128 list entries, nesting depth 40)
+	g.sizeFamilies()
 
 	// systematic spelling families: every way of writing one identifier (letter case of
 	// the id and of its -only / -or-later suffix, '+', WITH), through every function and
@@ -684,7 +689,8 @@ func (g *corpusGen) nestingFamilies() {
 			A + " AND " + B, "(" + A + " AND " + B + ") AND " + C, "(" + A + " AND " + B + ") AND (" + C + " OR " + D + ")",
 			C + " AND (" + A + " AND " + B + ")", "(" + A + " AND " + B + ") OR " + C, "(" + A + " OR " + B + ") AND " + C,
 			A + " OR " + B, "(" + A + " OR " + B + ") OR " + C, "((" + A + " AND " + B + ") AND " + C + ") AND " + D,
-			A + " AND " + B + " AND " + C, "(" + A + " AND " + B + ") AND " + E, "(" + A + " OR " + B + ") AND (" + C + " OR " + D + ")",
+			A + " AND " + B + " AND " + C, "(" + A + " AND " + B + ") AND " + E,
+			A + " AND " + B + " OR " + C, A + " OR " + B + " AND " + C, A + " AND (" + B + " OR " + C + ")", B + " AND " + A, B + " OR " + A, "(" + A + " OR " + B + ") AND (" + C + " OR " + D + ")",
 			"(" + A + " OR " + B + ") AND " + E, A, C,
 		}
 		lists := [][]string{{A, B}, {A, B, C}, {A, C}, {B, C, D}, {A, B, C, D, E}}
@@ -695,5 +701,49 @@ func (g *corpusGen) nestingFamilies() {
 			}
 		}
 		g.add(proto.Call{Fn: proto.FnValidate, List: exprs, Fam: g.fam, Tag: "nest"})
+	}
+}
+
+func (g *corpusGen) sizeFamilies() {
+	r := g.r
+	uniq := func(n int) []string {
+		ids := make([]string, 0, n)
+		for len(ids) < n {
+			id := g.plainID()
+			if !contains(ids, id) {
+				ids = append(ids, id)
+			}
+		}
+		return ids
+	}
+	for k, n := range []int{20, 40, 70} {
+		g.fam++
+		ids := uniq(n)
+		orChain := strings.Join(ids, " OR ")
+		andChain := strings.Join(ids, " AND ")
+		padded := strings.Repeat(" ", 300*(k+1)) + ids[0] + strings.Repeat(" ", 300*(k+1)) + "AND" + strings.Repeat(" ", 40) + ids[1]
+		deep := strings.Repeat("(", 15*(k+1)) + ids[0] + " OR " + ids[1] + strings.Repeat(")", 15*(k+1))
+		last := []string{ids[n-1]}
+		for _, e := range []string{orChain, andChain, padded, deep} {
+			g.add(proto.Call{Fn: proto.FnExtract, Expr: e, Fam: g.fam, Tag: "size"})
+			g.add(proto.Call{Fn: proto.FnSatisfies, Expr: e, List: last, Fam: g.fam, Tag: "size"})
+			g.add(proto.Call{Fn: proto.FnSatisfies, Expr: e, List: []string{ids[0], ids[1]}, Fam: g.fam, Tag: "size"})
+		}
+		g.add(proto.Call{Fn: proto.FnSatisfies, Expr: andChain, List: ids, Fam: g.fam, Tag: "size"})
+		g.add(proto.Call{Fn: proto.FnValidate, List: []string{orChain, andChain, padded}, Fam: g.fam, Tag: "size"})
+	}
+	for _, n := range []int{33, 65, 129} {
+		g.fam++
+		ids := uniq(n)
+		// duplicates and one invalid entry inside
+		l := append([]string{}, ids...)
+		l[n/3] = l[0]
+		l[n/2] = "NOT-A-LICENSE-" + strconv.Itoa(n)
+		g.add(proto.Call{Fn: proto.FnValidate, List: ids, Fam: g.fam, Tag: "size"})
+		g.add(proto.Call{Fn: proto.FnValidate, List: l, Fam: g.fam, Tag: "size"})
+		g.add(proto.Call{Fn: proto.FnSatisfies, Expr: ids[n-1], List: ids, Fam: g.fam, Tag: "size"})
+		g.add(proto.Call{Fn: proto.FnSatisfies, Expr: ids[n-1] + " AND " + ids[0], List: ids, Fam: g.fam, Tag: "size"})
+		g.add(proto.Call{Fn: proto.FnSatisfies, Expr: ids[1], List: l, Fam: g.fam, Tag: "size"})
+		_ = r
 	}
 }
